@@ -44,7 +44,7 @@ CHECKS.update({
 
 CHECKS.update({
     "C10": dict(cat="fault_enumeration", design="7/C10", technique="TLA+ spec Locks.tla (calls as lock programs with a failing twin for every step) model-checked with TLC: AtRestFree, NoDoubleRelease, EveryCallReturns with one fault anywhere; single-fault enumeration on the real code through BackendConfig / MetadataPersister / write-cache seams with watchdog and follow-up probes; the seam trace of every faulted call validated by TLC against Locks.tla (Trace_Locks.tla)",
-                note="faults are injected at existing seams, one per run; a call counts as hung after 40 s; K03 (partially consumed reader pins the drive) is a known finding printed by a witness run",
+                note="faults are injected at existing seams, one per run; a call counts as hung after 60 s; K03 (partially consumed reader pins the drive) is a known finding printed by a witness run",
                 text="Locks.tla models every call as the sequence of lock acquisitions/releases the code performs, with an error twin for each step that can fail; TLC checks that all locks are free at rest, no mutex is released by a non-holder and every call returns, and the check fails the run if the model stops detecting the repaired leak (deviation D1) or the known deadlock (K03). On the real code, for each call kind (26 fixed kinds incl. rejected calls, plus calls inside TLC-generated histories) a fault-free run counts the drive writes, drive reads, index-store calls, source reads and drive opens the call reaches; each point is then failed once (drive opens twice: at the seam, and for real inside the drive manager by moving the medium's directory away for that one open) on a fresh instance and the call plus a following Mkdir/Stat/List/ReadFile must return, without the process dying and with balanced drive acquire/release events; a partially read and then closed handle must free the drive."),
     "C11": dict(cat="model_checking", design="7/C11", technique="TLA+ Locks.tla (2-3 clients) model-checked for deadlock/liveness; concurrent executions of the real code (built with -race, schedule perturbed at the seams) recorded as invocation/response histories and checked for linearizability by TLC with spec/Lin.tla, which reuses STFS.tla's actions; final state compared with a rebuild",
                 note="-race is the observation instrument for data races; composite operations only on private paths; files smaller than one Read buffer (larger concurrent readers: known finding K04)",
